@@ -16,7 +16,7 @@ if os.path.exists(outfile):
             done.add(json.loads(l)["dir"])
         except Exception:
             pass
-dirs = sorted(os.path.dirname(p) for p in glob.glob(os.path.join(root, "*-out", "*", "patch.diff")))
+dirs = sorted(os.path.dirname(p) for p in glob.glob(os.path.join(root, "*-out", "*", "patch.diff")) + glob.glob(os.path.join(root, "C??-r*", "patch.diff")))
 dirs = [d for d in dirs if d not in done]
 
 
@@ -28,7 +28,7 @@ def one(d):
         return {"dir": d, "error": (r.stdout + r.stderr)[-400:]}
 
 
-with cf.ThreadPoolExecutor(6) as ex:
+with cf.ThreadPoolExecutor(8) as ex:
     for res in ex.map(one, dirs):
         with open(outfile, "a") as f:
             f.write(json.dumps(res) + "\n")
